@@ -15,7 +15,7 @@ pub fn def() -> PropDef {
         run_unit,
         replay,
         required_probes: &["ToInt_Fast", "ToInt_Rescale", "Tows_DownU64", "Tows_DownBig", "Tows_UpU64", "Tows_UpBig"],
-        rule: "exhaustive small scope: every |n| <= 20000 x scales -6..6; then seeded decimals of 1..60 digits at scales -40..40 concentrated on values within +-2 and +-0.5 of every integer type's MIN and MAX (written at scales 0..3 and as negative-scale representations k*10^j), fractions in (-1,1), small unscaled values pushed past a limit by a negative scale, zeros with any scale; each through to_i8..to_i128, to_u8..to_u128, to_isize/to_usize, to_bigint on value and reference, and is_integer, judged against trunc(value) in the model (signed: Some iff it fits; unsigned: None for every negative decimal, else Some iff it fits); constructors From<prim>, From<&prim>, From<BigInt>, From<(T, i64)>, FromPrimitive::from_* for MIN/MAX/0/+-1/random of every primitive type must store the exact integer at scale 0 (resp. the given scale). distinct = distinct decimals; non-trivial = non-zero fractional part or magnitude within 2 of a type limit",
+        rule: "exhaustive small scope: every |n| <= 20000 x scales -6..6; exhaustive m*10^k at scale k, m*10^k + 1 at scale k and m at scale -k for k = 0..400 (m in +-1, +-2, 5, 10, 25, 99, and the 192 machine-word boundary integers for k <= 45); then seeded decimals of 1..60 digits at scales -40..40 concentrated on values within +-2 and +-0.5 of every integer type's MIN and MAX (written at scales 0..3 and as negative-scale representations k*10^j), fractions in (-1,1), small unscaled values pushed past a limit by a negative scale, zeros with any scale; each through to_i8..to_i128, to_u8..to_u128, to_isize/to_usize, to_bigint on value and reference, and is_integer, judged against trunc(value) in the model (signed: Some iff it fits; unsigned: None for every negative decimal, else Some iff it fits); constructors From<prim>, From<&prim>, From<BigInt>, From<(T, i64)>, FromPrimitive::from_* for MIN/MAX/0/+-1/random of every primitive type must store the exact integer at scale 0 (resp. the given scale). distinct = distinct decimals; non-trivial = non-zero fractional part or magnitude within 2 of a type limit",
     }
 }
 
